@@ -408,8 +408,10 @@ def twin_c15(seed, n, only_k=None):
             if w[0] == "new": regs.clear()
             elif w[0] == "r" and len(w) == 3:
                 (regs.add if w[2] != "0" else regs.discard)(int(w[1]))
-            elif w[0] == "ri": taint = taint or w[1] != "0"
-        if a[i] == "new" and b[i] == "new": taint = False
+            elif w[0] == "ri": taint = w[1] != "0"          # the harness keeps the mode across `new`, until `ri 0`
+        if taint:
+            # what the callbacks registered or removed from inside is not known here: start again from nothing
+            ra_.clear(); rb_.clear()
     return {"a": a, "b": b, "pairs": [(i, i) for i in range(len(a)) if i >= len(base) or base[i] is not None], "keys": None,
             "events": False, "ret": True, "nontrivial": len(slots), "common": common, "late_reg": late}
 
